@@ -58,7 +58,7 @@ impl Property for C05 {
         }
     }
     fn rule(&self) -> &'static str {
-        "kind 0: constant-time programs (DI busy loop, EI busy loop with a 39-T IM-2 handler, EI;HALT idle loop) in uncontended RAM run for K frames under a seeded host slicing (FrameCount(n), Max mode stopped by scripted stopwatch readings, breakpoint stops every n-th instruction) with the exact equation executed T = K*F + r_K - r_0 and interrupt count = K; kind 1: INT-window probe (clock set to x in [0,48) or around the frame end, one step, accepted iff x<32); kind 2: frame-length probe (NOP stream single-stepped across the frame end, remainder carried). distinct = (machine, kind, program, K bucket, slicing kinds used, overrun r_K)"
+        "kind 0: constant-time programs (DI busy loop, EI busy loop with a 39-T IM-2 handler, EI;HALT idle loop) in uncontended RAM run for K frames under a seeded host slicing (FrameCount(n), Max mode stopped by scripted stopwatch readings, breakpoint stops every n-th instruction) with the exact equation executed T = K*F + r_K - r_0 and interrupt count = K; kind 1: INT-window probe (clock set to x in [0,48) or around the frame end, one step, accepted iff x<32); kind 2: frame-length probe (NOP stream single-stepped across the frame end, remainder carried); kind 3: whole-machine lock-step of seeded random code (any instruction mix, contended or not, EI/DI/HALT/IM 0-2 as the bytes fall) against RefZ80 on RefMem+RefULA with no re-synchronisation: cumulative time (frames x F + clock) compared after every instruction, judged at frame crossings and interrupt entries. distinct = (machine, kind, program, K bucket, slicing kinds used, overrun r_K)"
     }
     fn state_measure(&self) -> &'static str {
         "distinct (machine, in-frame offset r at a checked boundary) pairs"
@@ -70,21 +70,28 @@ impl Property for C05 {
         vec!["Host stopwatch (scripted)", "Host debug interface (every n-th instruction)", "frame buffers"]
     }
     fn assumptions(&self) -> Vec<&'static str> {
-        vec!["programs live in uncontended RAM (0x8000-0xBFFF), so instruction times are the documented ones (C03) and independent of C04", "arbitrary instruction mixes across frame boundaries are covered by C04's instruction-level runs"]
+        vec!["programs live in uncontended RAM (0x8000-0xBFFF), so instruction times are the documented ones (C03) and independent of C04", "kinds 0-2 use programs in uncontended RAM; kind 3 (lock-step) runs arbitrary code and relies on RefULA for contention: a clock difference inside a frame is left to C04, a register difference to C01/C06 (the pair is re-synchronised)"]
     }
     fn expected_probes(&self) -> Vec<&'static str> {
-        vec!["halted_di_program", "overrun_nonzero", "max_mode_call", "breakpoint_call", "multi_frame_call", "window_edge_31_32", "frame_end_step"]
+        vec!["halted_di_program", "overrun_nonzero", "max_mode_call", "breakpoint_call", "multi_frame_call", "window_edge_31_32", "frame_end_step", "lockstep_frame_crossed", "lockstep_interrupt"]
     }
 
     fn gen(&self, rng: &mut Rng, tier: Tier, idx: u64) -> Scenario {
         let mut sc = Scenario::new();
         sc.set("m128", rng.bool() as i64);
-        let kind = match idx % 10 {
+        let kind = match idx % 12 {
             0..=5 => 0,
             6 | 7 => 1,
-            _ => 2,
+            8 | 9 => 2,
+            _ => 3,
         };
+        let kind = if std::env::var("VERIF_ONLY_LOCKSTEP").is_ok() { 3 } else { kind };
         sc.set("kind", kind);
+        if kind == 3 {
+            sc.set("seed", (rng.next() >> 2) as i64);
+            sc.set("steps", if tier == Tier::Quick { 2500 } else { 8000 });
+            return sc;
+        }
         match kind {
             0 => {
                 sc.set("prog", *rng.pick(&[0i64, 0, 1, 1, 2, 2, 3, 4, 5, 6]));
@@ -131,6 +138,11 @@ impl Property for C05 {
         let mut e = new_emu(&cfg);
         let machine = if m128 { "128k" } else { "48k" };
         match sc.get("kind") {
+            3 => {
+                // whole-machine lock-step over random code: frame crossings and interrupt entries must
+                // keep the cumulative clock equal to the reference machine's
+                return crate::lockstep::run(m128, sc.get("seed") as u64, sc.get("steps").clamp(1, 50_000) as usize, crate::lockstep::Judge::FrameAccounting, "C05", ctx);
+            }
             0 => {
                 let prog = sc.get("prog").clamp(0, 6);
                 let r_start = 0u8;
